@@ -352,13 +352,25 @@ def run(tier, seed):
         return None
 
     zreq, zmeta = [], []
+    n_zbig = 0
     for c in conts:
         toks = c.get("ztokens") or c.get("zmsg_tokens")
         if toks is None:
             continue
-        for s_ in range(12 if tier == "quick" else 120):
+        # … and payloads that are LARGE after decompression but small on the wire (constant field values compress well): arrays of exactly
+        # 3000 .. 70000 elements, so that the decompressed size crosses 2^16 (the frame's own limit says nothing about the payload's size)
+        big = (3000, 70000) if tier == "quick" else (3000, 9000, 17000, 33000, 70000, 140000)
+        for s_ in list(range(12 if tier == "quick" else 120)) + [("big", ml) for ml in big]:
             try:
-                body = pyenc.encode(toks, prng, (1, 2, 3, 8)[s_ % 4], s_ if s_ < 8 else None)
+                if isinstance(s_, tuple):
+                    body = pyenc.encode(toks, prng, s_[1], None, maximal=True, intval=1)
+                    cap = (10240 if directions(c)[0] == "client" else 0xFFFF if libname(c) != "wrath" else 0x7FFFFF) - 16
+                    zb = (4 + len(zlib.compress(body))) if "zmsg_tokens" in c else len(body)
+                    if zb > cap:
+                        continue
+                    n_zbig += 1
+                else:
+                    body = pyenc.encode(toks, prng, (1, 2, 3, 8)[s_ % 4], s_ if s_ < 8 else None)
             except pyenc.Unsupported as e:
                 prim_unsupported[str(e)] += 1
                 break
@@ -405,7 +417,7 @@ def run(tier, seed):
         "reader_tie": tie_cov, "manual_codecs_compared": len(manual), "manual_codecs_equal": sum(1 for it in manual if not it["differences"]),
         "containers_total": len(conts), "containers_exercised": covered,
         "containers_outside_model": {"compressed (translator)": len(uns), **{f"built-in {k}": v for k, v in uns_kinds.items()}},
-        "evaluations": len(hreq) + len(zreq), "distinct_nontrivial": len(distinct), "frames_ok": n_ok, "boundary_length_frames": n_boundary, "compressed_stream": {"frames": len(zreq), "ok": n_zok}, "dictionary_stream": {"values_login": len(pool_login), "values_world": len(pool_world), "frames": len(dreq_), "identical": n_dict_ok},
+        "evaluations": len(hreq) + len(zreq), "distinct_nontrivial": len(distinct), "frames_ok": n_ok, "boundary_length_frames": n_boundary, "compressed_stream": {"frames": len(zreq), "ok": n_zok, "large_payloads": n_zbig}, "dictionary_stream": {"values_login": len(pool_login), "values_world": len(pool_world), "frames": len(dreq_), "identical": n_dict_ok},
         "builtin_type_stream": {"frames": n_prim_frames, "reference_encoder_cross_checked_against_lean": n_x, "builtins_without_payload_generator": dict(prim_unsupported)},
         "rule": f"per version-expanded message: directed samples in which every steering variable cycles through every value it is compared with (and one it is not) / every single flag mask, none, all — so every if / else-if / else arm is taken — plus {ns} random samples (arrays 0..4 or 0..9 elements); both directions for msg; distinct = distinct (container, direction, frame)",
         "samples": [{"request": hreq[i][:200], "implementation": ho[i][:200]} for i in (0, len(hreq) // 2, len(hreq) - 1)],
